@@ -212,6 +212,27 @@ Section Rend.
      non-zeroth overhead + 1) *)
   Definition min_size (p : rparams) : nat := Nat.max (S (zoz p)) (S (noz p)).
   Definition eff_size (p : rparams) (req : nat) : nat := Nat.max req (min_size p).
+  (* configuration history of one Memoer: the .code / .curt / .size setters, each of
+     which re-clamps .size for the configuration it has just established
+     (.size never shrinks: the refresh passes the current size back in) *)
+  Inductive cfgop := SetCode (c : code) | SetCurt (b : bool) | SetSize (n : nat).
+  Record cfg := { f_code : code; f_curt : bool; f_size : nat }.
+  Definition cfg_params (f : cfg) : rparams :=
+    {| r_code := f_code f; r_curt := f_curt f; r_size := f_size f; r_mid := []; r_vid := [] |}.
+  Definition reclamp (f : cfg) : cfg :=
+    {| f_code := f_code f; f_curt := f_curt f; f_size := eff_size (cfg_params f) (f_size f) |}.
+  Definition cfg_step (f : cfg) (o : cfgop) : cfg :=
+    match o with
+    | SetCode c => reclamp {| f_code := c; f_curt := f_curt f; f_size := f_size f |}
+    | SetCurt b => reclamp {| f_code := f_code f; f_curt := b; f_size := f_size f |}
+    | SetSize n => reclamp {| f_code := f_code f; f_curt := f_curt f; f_size := n |}
+    end.
+  (* __init__: code, curt, then size *)
+  Definition cfg_init (c : code) (curt : bool) (n : nat) : cfg :=
+    reclamp {| f_code := c; f_curt := curt; f_size := n |}.
+  Definition cfg_run (c : code) (curt : bool) (n : nat) (h : list cfgop) : cfg :=
+    fold_left cfg_step h (cfg_init c curt n).
+
   Definition zbz (p : rparams) : nat := (r_size p - zoz p)%nat.
   Definition nbz (p : rparams) : nat := (r_size p - noz p)%nat.
 
